@@ -545,6 +545,15 @@ func writeTypeConversion(w *formatting.IndentedWriter, typeChange dsl.TypeChange
 				}
 			}
 
+			if dsl.GetPrimitiveKind(oldPrim) == dsl.PrimitiveKindFloatingPoint && dsl.GetPrimitiveKind(newPrim) == dsl.PrimitiveKindInteger {
+				// NaN passes every range comparison and has no integer value
+				fmt.Fprintf(w, "if (std::isnan(%s)) {\n", rhs)
+				w.Indented(func() {
+					fmt.Fprintf(w, "throw std::runtime_error(\"Unable to convert NaN from '%s' to '%s'\");\n", dsl.TypeToShortSyntax(tc.OldType(), false), dsl.TypeToShortSyntax(tc.NewType(), false))
+				})
+				fmt.Fprintf(w, "}\n")
+			}
+
 			if len(overflowCheck) > 0 {
 				fmt.Fprintf(w, "%s", overflowCheck)
 				w.Indented(func() {
